@@ -100,4 +100,18 @@ theorem package_state_writers : pkgStateWriters = ["Init:accountLog", "loadContr
     balance writers (`Cfg.p002`), `IsSub` only selects the slot position inside the Keccak pre-image (`Cfg.balKey`) -/
 theorem fork_flag_reads : forkReads = ["AddFT:IsProposal002", "GetERC20Binding:IsSub", "SubFT:IsProposal002"] := by decide
 
+/-- the fields of the state-carrying structs and where each lives in the model (`Obj`, `ADB`, `Leaf`, `AccessList`);
+    a new cache or memo field in `accountObject` / `AccountDB` (e.g. a memoised code size) breaks this before any
+    input is searched — the searcher then supplies the failing history (derived reads inside the reverted region) -/
+theorem state_fields_modelled :
+    stateFields =
+      [ ("Account", ["Nonce", "Root", "kind", "NFTSetDefinitionHash"]),   -- Leaf.nonce, Leaf.storage (content of Root), –, Leaf.codeHash
+        ("AccountDB", ["db", "trie", "accessList", "accountObjectsLock", "accountObjects", "accountObjectsDirty", "dbErr",
+          "refund", "transientStorage", "transitions", "validRevisions", "nextRevisionID", "thash", "bhash", "txIndex",
+          "logs", "logSize"]),   -- codes/committed, trie, al, –, objs, dirtySet, (not modelled), refund, transient, journal, revisions, nextRev, thash, bhash, txIndex, logs, logSize
+        ("accessList", ["addresses", "slots"]),   -- AccessList.addrs, .slots
+        ("accountObject", ["address", "addrHash", "data", "db", "dbErr", "trie", "nftSet", "dirtyNFTSet", "cachedLock",
+          "cachedStorage", "dirtyStorage", "suicided", "touched", "deleted", "onDirty"]) ] := by   -- key of objs, –, nonce/codeHash, –, (not modelled), strie, code, dirtyCode, –, cached, dirty, suicided, touched, deleted, armed
+  decide
+
 end Rangers.Props.C04B
